@@ -21,7 +21,7 @@ RULE = (
     "and the first parse of the same bytes, a failing parse must fail again with the same exception class, and after every step a deep "
     "digest of RTCM_DATA_FIELDS, RTCM_PAYLOADS_GET{,_MSM,_IGS}, RTCM_MSGIDS, PRNSIGMAP, GNSSMAP, COEFFS, NMEA_HDR must equal the digest "
     "taken at import. (2) schedules: 2-4 parse jobs (incl. failing ones) interleaved at source-line granularity by a harness-owned "
-    "scheduler following a generated choice list; (3) free-running stress, 8 threads, switch interval 1e-6. Non-trivial: (1) a payload is "
+    "scheduler following a generated choice list; (3) free-running stress, 4 threads, switch interval 1e-6, over generated small messages plus a hash-built workload of boundary-sized nested messages of many shapes. Non-trivial: (1) a payload is "
     "re-parsed after a parse of a different identity and a failing parse; (2) >= 10 context switches inside the decoder."
 )
 ASSUMPTIONS = [
@@ -311,8 +311,13 @@ def s_sched(draw, tier):
 
 
 # ------------------------------------------------------------------ free-running stress
+NTHREADS = 4
+
+
 def o_stress(case):
     payloads = [bytes.fromhex(p) for p in case["payloads"]]
+    if case.get("big_shapes"):
+        payloads += big_workload(case["big_seed"], [tuple(x) for x in case["big_shapes"]])
     want = [do_parse("msg", p, 1 + (k & 1)) for k, p in enumerate(payloads)]
     for k, p in enumerate(payloads):
         check_result(p, 1 + (k & 1), want[k], "msg", "sequential")
@@ -332,7 +337,7 @@ def o_stress(case):
             except BaseException as e:  # pylint: disable=broad-except
                 errs.append((t, repr(e)))
 
-        ts = [threading.Thread(target=work, args=(t,)) for t in range(8)]
+        ts = [threading.Thread(target=work, args=(t,)) for t in range(NTHREADS)]
         for t in ts:
             t.start()
         for t in ts:
@@ -343,17 +348,37 @@ def o_stress(case):
         raise Fail("result-depends-on-threads", f"free-running: {len(errs)} thread(s) saw a different result, first {errs[0]}")
     if table_digest() != BASELINE:
         raise Fail("tables-modified", "tables differ after free-running threads")
-    return Res(nontrivial=True, classes=["stress"], evals=8 * case["reps"] * len(payloads))
+    return Res(nontrivial=True, classes=["stress"], evals=NTHREADS * case["reps"] * len(payloads))
 
 
 @st.composite
 def s_stress(draw, tier):
     n = draw(st.integers(3, 8))
     ps = [draw(gen.any_message("small"))["payload"] for _ in range(n)]
-    # boundary-sized nested groups: many distinct index tuples in one process (bounded caches get evicted mid-parse)
-    for big in draw(st.lists(st.sampled_from(["1059", "1065", "4076_025", "4076_026", "4076_201", "1302", "1033", "1077"]), min_size=2, max_size=3)):
-        ps.append(draw(gen.messages(big, "max"))["payload"])
-    return {"payloads": ps, "reps": 3 if tier == "quick" else 12}
+    return {"payloads": ps, "reps": 2 if tier == "quick" else 8, "big_seed": draw(st.integers(0, 2**32 - 1)), "big_shapes": draw(st.lists(st.sampled_from(SHAPES), min_size=4, max_size=6, unique=True))}
+
+
+SHAPES = [(13, 31), (63, 5), (31, 12), (20, 19), (40, 9), (8, 31), (50, 7)]
+
+
+def big_workload(seed, shapes):
+    """boundary-sized messages of many shapes: thousands of distinct (nested) group index tuples alive in one process,
+    so that any bounded cache keyed on them is evicted while other threads are mid-parse"""
+    out = []
+    for k, (ident, cnt, sub) in enumerate((("1059", "DF387", "DF379"), ("1065", "DF387", "DF379"), ("4076_025", "IDF010", "IDF023"))):
+        for nsat, nb in shapes[k % 2 :: 2] if k else shapes:
+            fixed = {cnt: nsat}
+            for i in range(1, nsat + 1):
+                fixed[f"{sub}_{i:02d}"] = nb
+            out.append(gen.hashed_message(ident, seed + k, fixed))
+    out.append(gen.hashed_message("1029", seed, {"DF138": 127, "DF139": 255}))
+    out.append(gen.hashed_message("1033", seed, {"DF029": 200, "DF032": 150, "DF227": 255, "DF229": 100, "DF231": 90}))
+    vt = {"IDF035": 2}
+    for lyr, (n, m) in enumerate(((12, 12), (9, 5), (14, 2)), 1):
+        vt[f"IDF037_{lyr:02d}"] = n
+        vt[f"IDF038_{lyr:02d}"] = m
+    out.append(gen.hashed_message("4076_201", seed, vt))
+    return out
 
 
 def _short(c):
@@ -371,5 +396,5 @@ def _short(c):
 SUBS = [
     Sub("parse_histories", o_history, strategy=s_history, examples=(60, 1200), rule="re-parse after a different identity and a failing parse", need={"re-parse": 1, "failing-parse": 1, "live": 1}, sample=_short),
     Sub("deterministic_schedules", o_sched, strategy=s_sched, examples=(10, 200), rule=">= 10 context switches inside the decoder", need={"switches-inside-decoder>=10": 1}, sample=_short),
-    Sub("free_running_threads", o_stress, strategy=s_stress, examples=(2, 30), rule="every case (8 threads)", sample=_short),
+    Sub("free_running_threads", o_stress, strategy=s_stress, examples=(3, 20), rule="every case (8 threads)", sample=_short),
 ]
